@@ -185,4 +185,29 @@ PROPS = {
                          "FROM-subqueries and IN-subqueries are exercised by implementation-only metamorphic differentials, not by the model"],
         "assumptions": ["the HAVING clause 'exactly those rows of the HAVING-free query' holds only up to known finding empty-bucket-row (rows for periods without data)"],
     },
+    "C02": {
+        "lean": ["ZenoModel.Props.C02"],
+        "theorems": ["inv_init", "inv_step", "reachable_inv", "reachable_inv_run", "files_complete",
+                     "recovered_exactly_once_partial", "recovered_exactly_once_scalar",
+                     "recover_is_crash_reopen_catchUp", "acked_not_lost", "no_double_count", "clean_close",
+                     "d12_witness", "recovered_exactly_once_false", "d12_trace_not_aligned"],
+        "engines": [
+            # n = number of scripts; per script: crash-free baseline + every hook event that occurs x
+            # first two occurrences (thorough: every occurrence, capped at 12) + SIGKILL cases; 2-7 child processes each
+            {"name": "crash", "n_quick": 6, "n_thorough": 70, "n_search": 6,
+             "timeout_quick": 600, "timeout_thorough": 3000},
+        ],
+        "trusted_base": ["github.com/getlantern/wal: Write appends one entry and (SyncInterval 0) syncs it before returning; offsets grow with every write; "
+                         "NewReader(offset) resumes strictly after the entry that ends at offset; a torn tail is skipped (modelled as: an in-flight entry is in the WAL or not)",
+                         "OS file semantics under process kills: what write(2) accepted is durable, rename within one filesystem is atomic "
+                         "(temp files are created in os.TempDir: a TMPDIR on another filesystem than the data directory is outside the model); power loss / page-cache loss is not modelled",
+                         "table content abstracted to the list of (entry, i) applications; the refinement to real aggregates is M-STORE + C05 (merge homomorphism), "
+                         "sampled end to end by the value encoding base^attempt of the crash engine",
+                         "hook placement in /repo (build tag verif): the event log is the model's view of the run; a durable action that happened "
+                         "without its hook line (kill between the two) is bridged by the driver's crashAsync alternatives (rename of the flush file / of the offset file)",
+                         "LimitAge at CreateTable is the identity (WAL segments younger than the retention period, no backfill limit); WAL truncation by size (capWALAge) does not occur (small scripts)"],
+        "assumptions": ["one source (non-clustered server); the follower path (offsets per source) is C12",
+                        "no flush starts between two row-store inserts of one array-valued point (Zeno.Crash.stepA) - otherwise D12: "
+                        "recovered_exactly_once_false; all scalar-valued histories satisfy it (recovered_exactly_once_scalar)"],
+    },
 }
